@@ -35,3 +35,8 @@ pub open spec fn min_ada_post(o: TransactionOutput, cpb: u64, c: u64) -> bool {
     &&& maxu(c, o.amount.coin.0) >= req(o, cpb, maxu(c, o.amount.coin.0))
     &&& c <= req(o, cpb, u64::MAX)
 }
+
+/// the output `TransactionOutputAmountBuilder::build` produces from a builder whose amount is set
+pub open spec fn built_output(b: TransactionOutputAmountBuilder) -> TransactionOutput {
+    TransactionOutput { address: b.address, amount: b.amount->Some_0, plutus_data: b.data, script_ref: b.script_ref, serialization_format: None }
+}
